@@ -757,7 +757,7 @@ SPEC = {
             'with the model and the invariants are evaluated on the implementation; non-trivial = at least 2 operations; '
             'distinct = distinct case text',
     'extra_trusted': ['C11: flate2/weezl are oracles whose answers come from the case (same table as C09)'],
-    'partial_note': 'proved: allocation invariant / freshness / no collision over every program of the whole Document state (incl. add_bookmark, build_outline on every table, save, renumber with bookmarks), build_outline reserves exactly the ids it uses (with C17), pruning = unreachable, delete_object leaves no reference (+ frame, termination), I_content for add_page_contents / add_to_page_content / change_content_stream / change_page_content on EVERY page with a Contents of any shape (stream or array behind references, the page behind reference objects; after the repairs of C11-content-indirect and C11-content-shared: no class excluded; other pages are unchanged when their content is defined), I_resources on every object graph for get_or_create_resources and add_graphics_state (after the repair c729297); I_count at tree level (C11_delete_pages_tree: on a page_doc -- nodes are dictionary objects with direct Kids/Count, exact Counts, Parent pointers, nothing shared, height within the limit of C12 -- delete_pages(ns) neither panics nor hangs, every Pages Count is again the number of leaves, page list = old list minus the pages NUMBERED ns in the original numbering, repeats / out-of-range numbers included); add_xobject with an indirect XObject entry under xobject_typed (name not Parent/Resources; name new in the target, or the target is the Resources dictionary of no node; alias witness shows the condition is needed); frames for every non-deleting operation (C11_frame_content_ops, C11_frame_keeping_ops). No finding is open; outside the proved domains the clauses are decided on the implementation after every step by the harness and tied to the model by correspondence',
+    'partial_note': 'proved: allocation invariant / freshness / no collision over every program of the whole Document state (incl. add_bookmark, build_outline on every table, save, renumber with bookmarks), build_outline reserves exactly the ids it uses (with C17), pruning = unreachable, delete_object leaves no reference (+ frame, termination), I_content for add_page_contents / add_to_page_content / change_content_stream / change_page_content on EVERY page with a Contents of any shape (stream or array behind references, the page behind reference objects; after the repairs of C11-content-indirect and C11-content-shared: no class excluded; other pages are unchanged when their content is defined), I_resources on every object graph for get_or_create_resources and add_graphics_state (after the repair c729297); I_count at tree level (C11_delete_pages_tree: on a page_doc -- nodes are dictionary objects with direct Kids/Count, exact Counts, Parent pointers, nothing shared, height within the limit of C12 -- delete_pages(ns) neither panics nor hangs, every Pages Count is again the number of leaves, page list = old list minus the pages NUMBERED ns in the original numbering, repeats / out-of-range numbers included; C11_delete_pages_tree_indirect: the same on page_doc_ref -- a Count may sit behind references (shared integer objects allowed), a page may be a reference object leading through any reference objects to the page dictionary, the objects the page ids end at pairwise different -- and every Count the call rewrites is a direct integer afterwards); add_xobject with an indirect XObject entry under xobject_typed (name not Parent/Resources; name new in the target, or the target is the Resources dictionary of no node; alias witness shows the condition is needed); frames for every non-deleting operation (C11_frame_content_ops, C11_frame_keeping_ops). No finding is open; outside the proved domains the clauses are decided on the implementation after every step by the harness and tied to the model by correspondence',
 }
 
 
